@@ -458,7 +458,8 @@ static void h_adp_encode(const vcase *c) {
     size_t w = varintAdaptiveEncode(buf, vals, n, &meta);
     call_end(&a);
     int ret = 0;
-    if (w) ret = (w <= cap && (buf[0] == sel || buf[0] == self) && adp_roundtrip(buf, vals, n)) ? 1 : 2;
+    if (w) ret = (w <= cap && (buf[0] == sel || buf[0] == self || buf[0] == VARINT_ADAPTIVE_TAGGED) &&
+                  adp_roundtrip(buf, vals, n)) ? 1 : 2;
     out_str("facts", facts ? "ok" : "BAD");
     report(&a, ret, -1);
     free(buf); free(vals);
